@@ -180,6 +180,20 @@ class Setup:
         return manager
 
 
+def uninterpolated(pot, manager, Tn):
+    """EOS at Tn straight from EffectivePotential.findLocalMinimum + finite differences in T
+    (no tracing, no spline): what WallGoManager.initTemperatureRange hands to the template
+    model to estimate the temperature range.  Direct probe of the reviewed tolerance site
+    `minimize(tol=tol)` (scipy's absolute finite-difference step and gradient tolerance)."""
+    from WallGo import Thermodynamics
+    th0 = Thermodynamics(pot, Tn, manager.phasesAtTn.phaseLocation2,
+                         manager.phasesAtTn.phaseLocation1)
+    th0.freeEnergyHigh.disableAdaptiveInterpolation()
+    th0.freeEnergyLow.disableAdaptiveInterpolation()
+    return dict(alpha0=float(th0.alpha(Tn)), csqHigh0=float(th0.csqHighT(Tn)),
+                csqLow0=float(th0.csqLowT(Tn)))
+
+
 def solve_case(job):
     """job = (model name, unit, tolerance set name, stages). Returns a dict of outputs in
     the units of the run (dimensionful ones are rescaled by the caller)."""
@@ -213,7 +227,16 @@ def solve_case(job):
             muMinLowT=float(th.muMinLowT), aMinLowT=float(th.aMinLowT),
             epsilonMinLowT=float(th.epsilonMinLowT),
             muMaxHighT=float(th.muMaxHighT), aMaxHighT=float(th.aMaxHighT),
-            epsilonMaxHighT=float(th.epsilonMaxHighT))
+            epsilonMaxHighT=float(th.epsilonMaxHighT),
+            # the minima located by EffectivePotential.findLocalMinimum at Tn (first field)
+            phase1=float(np.asarray(manager.phasesAtTn.phaseLocation1).reshape(-1)[0]),
+            phase2=float(np.asarray(manager.phasesAtTn.phaseLocation2).reshape(-1)[0]),
+            **uninterpolated(st.pot, manager, Tn),
+            # did the tracer stop before the requested end of the range (spinodal)?
+            early=dict(TMinHighT=bool(th.freeEnergyHigh.minPossibleTemperature[1]),
+                       TMaxHighT=bool(th.freeEnergyHigh.maxPossibleTemperature[1]),
+                       TMinLowT=bool(th.freeEnergyLow.minPossibleTemperature[1]),
+                       TMaxLowT=bool(th.freeEnergyLow.maxPossibleTemperature[1])))
         if "lte" in stages:
             out["vwLTE"] = float(manager.wallSpeedLTE())
         if "wall" in stages:
@@ -299,22 +322,50 @@ def compare_runs(ctx, ref, run, tols, tolname):
     if "raised" in ref:
         return []
     # Premise of the property: both phases exist over the temperature range the solver asks
-    # for.  When a phase ends at a spinodal inside that range the tracer may stop there or hop
-    # onto the other phase (known finding C11 trace-hops-phase-at-spinodal), and which of the
-    # two happens is not unit independent.  Such a pair is outside the quantifier: it is
-    # logged and counted, not compared.
+    # for.  When a phase ends at a spinodal inside that range the tracer should stop there
+    # (it reports that it stopped early), but it may also hop onto the other phase and go on
+    # (known finding C11 trace-hops-phase-at-spinodal), and which of the two happens is not
+    # unit independent.  Signature: one run stopped early at this end, the other run's range
+    # extends well beyond that point.  Such a pair is outside the quantifier: logged and
+    # counted, not compared.
     for end in ("TMinHighT", "TMaxHighT", "TMinLowT", "TMaxLowT"):
         a, b = ref[end] / ref["Tn"], run[end] / run["Tn"]
-        if abs(a - b) > 0.1 * min(abs(a), abs(b)):
+        if abs(a - b) <= 0.1 * min(abs(a), abs(b)):
+            continue
+        sign = 1 if "Max" in end else -1
+        short, long_ = (ref, run) if sign * (a - b) < 0 else (run, ref)
+        if short.get("early", {}).get(end) and not long_.get("early", {}).get(end):
             ctx.count("metamorphic_outside_quantifier", bucket=end)
             ctx.log("  outside the quantifier: %s/Tn = %.4f (units x%g) vs %.4f (units x%g): a "
-                    "phase ends inside the requested range and the tracer %s; alphaN %.7g vs "
-                    "%.7g, vJ %.5f vs %.5f, vw %s vs %s" % (
-                        end, a, ref["unit"], b, run["unit"],
-                        "hopped onto the other phase in one unit system (known finding C11)",
-                        ref["alphaN"], run["alphaN"], ref["vJ"], run["vJ"], ref.get("vw"),
-                        run.get("vw")))
+                    "phase ends at a spinodal inside the requested range; the tracer stopped "
+                    "there in one unit system and hopped onto the other phase in the other "
+                    "(known finding C11); alphaN %.7g vs %.7g, vJ %.5f vs %.5f, vw %s vs %s"
+                    % (end, a, ref["unit"], b, run["unit"], ref["alphaN"], run["alphaN"],
+                       ref["vJ"], run["vJ"], ref.get("vw"), run.get("vw")))
             return ["(outside quantifier: %s)" % end]
+    # Direct probe of the reviewed site `minimize(tol=tol)` in EffectivePotential.
+    # findLocalMinimum (scipy's BFGS differentiates Veff with an ABSOLUTE step 1.49e-8 and
+    # stops on an absolute gradient): is the EOS at Tn computed without tracing/spline
+    # (findLocalMinimum + unit-covariant finite differences in T only) covariant?
+    probe = max(abs(ref[k] - run[k]) / abs(ref[k]) for k in ("alpha0", "csqHigh0", "csqLow0"))
+    PROBE_TOL = 1e-4
+    ctx.count("probe_findLocalMinimum", bucket="dev<1e-4" if probe < PROBE_TOL else "dev>=1e-4")
+    # The un-interpolated EOS only serves to choose the temperature range that is traced;
+    # deviations of EOS-derived outputs are attributed to it only if it is itself off AND
+    # the traced ranges of the two runs differ (the visible mechanism).  Outputs of the wall
+    # solution and the inputs (variation scales) are never attributed.
+    EOS_Q = {"alphaN", "alpha", "csqHigh", "csqLow", "vJ", "vMin", "vwLTE", "muMinLowT", "pHigh",
+             "pLow", "dpHigh", "ddpLow", "eHigh", "wLow", "TMinLowT", "TMinHighT"}
+    ranges_differ = any(
+        abs(ref[e] / ref["Tn"] - run[e] / run["Tn"]) > 0.02 * abs(ref[e] / ref["Tn"])
+        for e in ("TMinHighT", "TMaxHighT", "TMinLowT", "TMaxLowT"))
+    if probe >= PROBE_TOL:
+        ctx.log("  note: un-interpolated EOS at Tn (findLocalMinimum + finite differences) "
+                "deviates by %.2g between units x%g and x%g (alpha %.6g vs %.6g, cs2_low %.6g "
+                "vs %.6g)%s" % (probe, ref["unit"], run["unit"], ref["alpha0"], run["alpha0"],
+                                ref["csqLow0"], run["csqLow0"],
+                                "; traced ranges differ" if ranges_differ else ""))
+    attributed = []
     for q in DIMLESS + list(DIMFUL):
         if q not in ref or q not in run:
             continue
@@ -327,6 +378,9 @@ def compare_runs(ctx, ref, run, tols, tolname):
         ctx.count("metamorphic_compare", bucket=q)
         if not dev <= tol:
             bad.append(q)
+            if probe >= PROBE_TOL and ranges_differ and q in EOS_Q:
+                attributed.append((q, a, b, d, dev, tol))
+                continue
             ctx.fail_input(
                 "%s [%s tolerances]: %s = %.10g in units x%g but %.10g (rescaled by "
                 "lam^%d) in units x%g: deviation %.3g > %.3g" % (
@@ -335,6 +389,21 @@ def compare_runs(ctx, ref, run, tols, tolname):
                      units=[ref["unit"], run["unit"]], quantity=q, reference=a, rescaled=b,
                      dimension=d, deviation=dev, tolerance=tol),
                 key="metamorphic:%s" % q)
+    if attributed:
+        # the minima themselves are not covariant in this pair: everything downstream of
+        # findLocalMinimum is attributed to that site (one failure class)
+        ctx.fail_input(
+            "%s [%s tolerances]: the un-interpolated EOS at Tn (findLocalMinimum + finite "
+            "differences, as used by initTemperatureRange for the template model) is not unit "
+            "covariant: alpha/cs2 deviate by %.2g between units x%g and x%g (scipy's absolute "
+            "finite-difference step / gradient tolerance in minimize); downstream: %s" % (
+                name, tolname, probe, ref["unit"], run["unit"],
+                "; ".join("%s %.7g vs %.7g (dev %.2g > %.2g)" % (q, a, b, dev, tol)
+                          for q, a, b, d, dev, tol in attributed)),
+            dict(kind="metamorphic", model=name, tols=run["tols"], **hist,
+                 units=[ref["unit"], run["unit"]], quantity="findLocalMinimum",
+                 probe=probe, downstream=[x[0] for x in attributed]),
+            key="site:findLocalMinimum-absolute-step")
     if "success" in ref and "success" in run and ref["success"] != run["success"]:
         bad.append("success")
         ctx.fail_input("%s [%s]: success flag %s vs %s under unit factor %g" % (
